@@ -57,6 +57,17 @@ UNITS.append(dict(name="c03_eitstar_updateApproximateSolution", template="C01/ei
                   functions=["ompl::geometric::EITstar::updateApproximateSolution(state)"], canaries=[dict(name="cost_to_goal_of_the_old_state", where="body:eit_approx", rx=r"approximateSolutionCostToGoal_ = costToGoal;", repl="")]))
 UNITS.append(dict(name="c03_prm_setProblemDefinition", template="C01/eit_approx.c", mode="plain", entry="h_prm_setpdef", flags=["--bounds-check", "--pointer-check"], level="proof", backend="minisat", timeout=300, sources=EA_SRC,
                   functions=["ompl::geometric::PRM::setProblemDefinition", "ompl::geometric::PRM::clearQuery"], canaries=[dict(name="goal_milestones_kept", where="body:clearQuery", rx=r"goalM_n = 0;", repl="")]))
+# the same forget-the-old-query contract for the other roadmap planners that override setProblemDefinition (LazyPRM, SPARS, SPARStwo)
+QP_UNITS = []
+for _cls, _file in (("LazyPRM", "src/ompl/geometric/planners/prm/src/LazyPRM.cpp"), ("SPARS", "src/ompl/geometric/planners/prm/src/SPARS.cpp"), ("SPARStwo", "src/ompl/geometric/planners/prm/src/SPARStwo.cpp")):
+    _src = [EA_SRC[0],
+            dict(name="clearQuery", file=_file, sig=r"void ompl::geometric::%s::clearQuery\(\)" % _cls, rules=[(r"if \(pdef_\)\s*pdef_->clearSolutionPaths\(\);", "solutions_cleared = 1;", 0)] + EA_RULES, loops={}),
+            dict(name="setProblemDefinition", file=_file, sig=r"void ompl::geometric::%s::setProblemDefinition\(const base::ProblemDefinitionPtr &pdef\)" % _cls, rules=EA_RULES, loops={})]
+    QP_UNITS.append(dict(name="c03_%s_setProblemDefinition" % _cls.lower(), template="C01/eit_approx.c", mode="plain", entry="h_prm_setpdef", flags=["--bounds-check", "--pointer-check"], level="proof", backend="minisat", timeout=300, sources=_src,
+                         needs=["clearQuery", "setProblemDefinition"], functions=["ompl::geometric::%s::setProblemDefinition" % _cls, "ompl::geometric::%s::clearQuery" % _cls],
+                         canaries=[dict(name="old_query_kept", where="body:setProblemDefinition", rx=r"prm_clearQuery\(\);", repl=";")]))
+UNITS += QP_UNITS
+
 ASSUMPTIONS = C01.ASSUMPTIONS + ["the termination condition returns an arbitrary value at every evaluation (so every interruption point is covered); executions that create fewer than 8 motions"]
 TRUSTED = C01.TRUSTED
 NOT_COVERED = ["every planner other than geometric::RRT (whole solve), control::PDST (flag logic of a resumed solve), EIT*'s approximate-solution update, PRM::setProblemDefinition/clearQuery and BundleSpaceGraph::clear (each solve()/clear() body would need its own contracts)",
